@@ -159,16 +159,24 @@ class Ctx:
         BEHAVIOUR lines. Returns (path or None, behaviours list)."""
         r = self.tlc(area, module, cfg, **kw)
         beh = []
+        bad_beh = 0
         for line in r["out"].splitlines():
             i = line.find("BEHAVIOUR ")
             if i >= 0:
+                line = line.strip()
+                if line.startswith('"') and line.endswith('"'):
+                    try:
+                        line = json.loads(line)      # TLC prints a TLA+ string: undo the quoting
+                    except Exception:
+                        line = line[1:-1].replace('\\"', '"').replace("\\\\", "\\")
+                    i = line.find("BEHAVIOUR ")
                 txt = line[i + len("BEHAVIOUR "):].strip()
-                if txt.startswith('"') and txt.endswith('"'):
-                    txt = json.loads(txt)
                 try:
                     beh.append(json.loads(txt))
                 except Exception:
-                    pass
+                    bad_beh += 1
+        if bad_beh:
+            raise Infra("%d BEHAVIOUR lines of %s could not be parsed" % (bad_beh, module))
         p = os.path.join(r["dir"], outfile)
         if r["distinct"]:
             self.states += r["distinct"]
